@@ -3,6 +3,50 @@ import os, subprocess, resource
 import checklib as L
 
 
+import re
+_EDGE_STEP = re.compile(r"^ev\|step\|(\d+)\|[a-z]+\|tile/\d")
+
+
+def strip_failed_edge_reads(lines):
+    """tlog.TileHashReader fetches ALL right-edge hash tiles and only then authenticates them, while
+    the model authenticates each tile as it is fetched. When a load fails with class 'edge' the
+    set of hash tiles fetched before the failure is therefore not compared: the blocks
+    'ev|step|i|..|tile/<L>/...' + their observation lines directly preceding '> load i fail edge'
+    are dropped on both sides (fetches have no effect on the world)."""
+    out = list(lines)
+    i = 0
+    while i < len(out):
+        m = re.match(r"^> load (\d+) fail edge$", out[i])
+        if m:
+            inst = m.group(1)
+            j = i
+            # walk back over blocks: event line of this instance fetching a hash tile, followed by '>' lines
+            while True:
+                k = j - 1
+                while k >= 0 and out[k].startswith("> ") and not out[k].startswith("> load "):
+                    k -= 1
+                mm = _EDGE_STEP.match(out[k]) if k >= 0 else None
+                if mm and mm.group(1) == inst:
+                    j = k
+                else:
+                    break
+            del out[j:i]
+            i = j
+            # model side: the remaining fetch events of that load arrive after the failure
+            k = i + 1
+            while k < len(out):
+                mm = _EDGE_STEP.match(out[k])
+                if mm and mm.group(1) == inst:
+                    e = k + 1
+                    while e < len(out) and out[e] == "> note step-ignored":
+                        e += 1
+                    del out[k:e]
+                else:
+                    break
+        i += 1
+    return out
+
+
 def canon(lines):
     """Returns (lines without acknowledgements and model-only lines, acks) where acks is a list of
     (ack line, segment number); segments end at 'ev|sync'. Acknowledgements are delivered by waiter
@@ -10,6 +54,7 @@ def canon(lines):
     they are compared per history as a set, with the constraint that the implementation never
     delivers one in an EARLIER segment than the model (later is latency, earlier is a difference)."""
     out, acks, seg = [], [], 0
+    lines = strip_failed_edge_reads(lines)
     for l in lines:
         if l.startswith("> round ") or l.startswith("stat|") or l.startswith("mon|"):
             continue
